@@ -283,7 +283,7 @@ def rules_streams(tier):
 
 PROPS['C04'] = dict(
     family='line', tags={'M': 'rules'},
-    theorems=['C04_equal', 'C04_no_eol', 'C04_escaped', 'C04_glob', 'C04_regex_whole_line', 'C04_regex_rule_partial'],
+    theorems=['C04_equal', 'C04_no_eol', 'C04_escaped', 'C04_glob', 'C04_cram_glob', 'C04_regex_whole_line', 'C04_regex_rule_partial'],
     streams=rules_streams,
     spec_kinds=['SPEC:C04'], corr_kinds=['DIFF:regex', 'DIFF:glob', 'DIFF:cramglob', 'DIFF:equal', 'DIFF:no-eol', 'DIFF:escaped'],
     case_format='M r <regex AST, prefix form>|<hex of the expression text>|<hex line content> <1 = final newline>|<matches>   M g <hex glob pattern>|<hex content> <nl>|<matches>|<Cram-style glob matches>   '
@@ -291,7 +291,7 @@ PROPS['C04'] = dict(
     rule='regex: random ASTs (depth <= 3: literals incl. metacharacters and a 2-byte character, ., classes, sequence, alternation at top level and nested, star) printed as a user would write them, '
          'lines sampled from the language and mutated; glob: patterns over a b * ? e-acute space . backslash with lines instantiated from the pattern and mutated; '
          'equal/no-eol/escaped: byte lines with 0-2 final newlines, escape sequences, tabs. Distinct by case text',
-    manifest=dict(text='Machine-checked theorems (Coq): equal, no-eol and escaped rules match exactly the documented lines; the executable glob matcher is equivalent to the declarative relation (? one character, * any run, whole line); the derivative regex matcher used as reference semantics decides whole-line membership in the declarative language of the expression. Tied to /repo by ExpectationMaker::parse(..).matches(..) on generated expressions and lines for every kind (wildmatch, the regex crate and scrut\'s wrappers `^(?:e)$` included); any disagreement with the proved matchers is a concrete violating (expression, line).',
+    manifest=dict(text='Machine-checked theorems (Coq): equal, no-eol and escaped rules match exactly the documented lines; the executable glob matcher is equivalent to the declarative relation (? one character, * any run, whole line); the regular expression the Cram flavour of glob is translated to has exactly the language of the pattern with its backslash escapes (C04_cram_glob); the derivative regex matcher used as reference semantics decides whole-line membership in the declarative language of the expression. Tied to /repo by ExpectationMaker::parse(..).matches(..) on generated expressions and lines for every kind (wildmatch, the regex crate and scrut\'s wrappers `^(?:e)$` included); any disagreement with the proved matchers is a concrete violating (expression, line).',
                   technique='Coq proof (Brzozowski derivatives = declarative language; glob matcher = inductive relation) + differential correspondence through the real rule implementations',
                   note='The regex and wildmatch crates are premises (C04_regex_rule_partial states the crate law that the correspondence checks).'),
     exhaustive={'quick': False, 'thorough': False},
